@@ -10,7 +10,7 @@ import (
 	"golang.org/x/tools/go/ssa"
 )
 
-const maxThreads = 12
+const maxThreads = 12 // default; Config.MaxThreads raises it for the many-goroutine runs
 
 type chanCase struct {
 	ch   *ChanObj
@@ -33,8 +33,8 @@ type raceMeta struct {
 	wT   int
 	wC   int32
 	wPos ssa.Instruction // position of the last write (formatted only when a race is reported)
-	rd   [maxThreads]int32
-	rPos [maxThreads]ssa.Instruction
+	rd   []int32         // allocated on first use, one entry per possible thread
+	rPos []ssa.Instruction
 }
 
 type timerEnv struct {
@@ -48,10 +48,10 @@ type timerEnv struct {
 }
 
 func (r *Run) newThread(name string) *Thread {
-	if len(r.threads) >= maxThreads {
+	if len(r.threads) >= r.maxT {
 		r.fail("too many threads")
 	}
-	t := &Thread{id: len(r.threads), vc: make([]int32, maxThreads), name: name}
+	t := &Thread{id: len(r.threads), vc: make([]int32, r.maxT), name: name}
 	t.vc[t.id] = 1
 	r.threads = append(r.threads, t)
 	return t
@@ -96,7 +96,7 @@ func (r *Run) release(t *Thread, smp **syncMeta) {
 	}
 	sm := *smp
 	if sm.vc == nil {
-		sm.vc = make([]int32, maxThreads)
+		sm.vc = make([]int32, r.maxT)
 	}
 	join(sm.vc, t.vc)
 	t.vc[t.id]++
@@ -138,8 +138,12 @@ func (r *Run) raceCheckAt(m *raceMeta, write bool, what func() string) {
 		r.crash(ORace, "data-race", fmt.Sprintf("%s of %s by thread %d at %s races with write by thread %d at %s",
 			rw(write), what(), t.id, r.where(), m.wT, r.instrPos(m.wPos)))
 	}
+	if m.rd == nil {
+		m.rd = make([]int32, r.maxT)
+		m.rPos = make([]ssa.Instruction, r.maxT)
+	}
 	if write {
-		for u := 0; u < maxThreads; u++ {
+		for u := 0; u < r.maxT; u++ {
 			if u != t.id && m.rd[u] > t.vc[u] {
 				r.crash(ORace, "data-race", fmt.Sprintf("write of %s by thread %d at %s races with read by thread %d at %s",
 					what(), t.id, r.where(), u, r.instrPos(m.rPos[u])))
@@ -264,7 +268,7 @@ func (r *Run) schedule() {
 		}
 		n := len(en) + len(envs)
 		k := 0
-		if lastEnabled && r.eng.cfg.Preempt >= 0 && r.preemptions >= r.eng.cfg.Preempt {
+		if r.eng.cfg.SchedFixed || (lastEnabled && r.eng.cfg.Preempt >= 0 && r.preemptions >= r.eng.cfg.Preempt) {
 			k = 0
 		} else {
 			k = r.choose(n, "sched")
@@ -437,7 +441,7 @@ func (r *Run) doSend(t *Thread, ch *ChanObj, v Value) {
 	}
 	if len(ch.buf) < ch.cap {
 		ch.buf = append(ch.buf, v)
-		vc := make([]int32, maxThreads)
+		vc := make([]int32, r.maxT)
 		copy(vc, t.vc)
 		ch.bufvc = append(ch.bufvc, vc)
 		t.vc[t.id]++
